@@ -116,6 +116,21 @@ def horton_anchor(results):
         _ok("R2 nuclear attraction vs HORTON", np.abs(V - Vh).max(), 1e-6, results)
     except ImportError:
         pass
+    # ERI: Be-C, STO-6G, 10 functions (HORTON, physicists' notation)
+    f = os.path.join(tests, "data_horton_bec_cart_elec_repulsion.npy")
+    g = os.path.join(tests, "data_sto6g.nwchem")
+    if os.path.exists(f) and os.path.exists(g):
+        from vf.ref import r2
+
+        bd = parse_nwchem_reference(open(g).read())
+        shells = []
+        for atom, x in (("Be", 0.0), ("C", 1.0)):
+            for l, exps, coeffs in bd[atom]:
+                shells.append({"l": l, "coord": [x, 0.0, 0.0], "exps": exps, "coeffs": coeffs, "type": "cartesian"})
+        G = np.transpose(r2.eri_full(r3.refs(shells)), (0, 2, 1, 3))
+        Gh = np.load(f)
+        if Gh.shape == G.shape:
+            _ok("R2 electron repulsion vs HORTON (Be-C STO-6G)", np.abs(G - Gh).max(), 1e-6, results)
 
 
 def main():
